@@ -110,3 +110,303 @@ theorem armSell_scaled {f : Rat} (hf : 0 < f) {t t' : Tracker} (ht : TrackerScal
             exact ⟨by simp [scaleStatus], rfl, by simp [sflOptScaled], rfl⟩
 
 end Acb
+
+namespace Acb
+
+/-! ### the tracker through its observables -/
+
+def Tracker.acbOf (t : Tracker) (a : Aff) : Option Rat := ((t.m a).getD (defaultStatus a)).acb
+
+theorem nextPre_eq (t : Tracker) (a : Aff) :
+    t.nextPre a = { shares := t.bal a, all := t.latestAll, acb := t.acbOf a } := by
+  unfold Tracker.nextPre Tracker.bal Tracker.acbOf
+  cases h : t.m a with
+  | none =>
+    simp only [Option.getD_none]
+    split
+    · rename_i he; simp_all [defaultStatus]
+    · simp [defaultStatus]
+  | some s =>
+    simp only [Option.getD_some]
+    split
+    · rename_i he; cases s; simp_all
+    · rfl
+
+theorem TrackerScaled.of_obs {f : Rat} {t t' : Tracker} (hb : ∀ a, t'.bal a = t.bal a * f)
+    (hall : t'.latestAll = t.latestAll * f) (hacb : ∀ a, t'.acbOf a = t.acbOf a)
+    (hpost : t'.latestPostAll = t.latestPostAll * f) : TrackerScaled f t t' :=
+  ⟨fun a => by rw [nextPre_eq, nextPre_eq, hb, hall, hacb]; rfl, hpost⟩
+
+theorem TrackerScaled.all {f : Rat} {t t' : Tracker} (h : TrackerScaled f t t') (a : Aff) :
+    t'.latestAll = t.latestAll * f := by
+  rw [← nextPre_all t' a, ← nextPre_all t a, h.pre a]; rfl
+
+theorem TrackerScaled.acbOf {f : Rat} {t t' : Tracker} (h : TrackerScaled f t t') (a : Aff) :
+    t'.acbOf a = t.acbOf a := by
+  have := h.pre a
+  rw [nextPre_eq, nextPre_eq] at this
+  simp only [scaleStatus] at this
+  exact (Status.mk.injEq .. ▸ this).2.2
+
+theorem setLatest_ok {t : Tracker} {a : Aff} {v : Status} {t2 : Tracker} (h : t.setLatest a v = .ok t2) :
+    a.registered = v.acb.isNone ∧ v.all = v.shares + t.latestAll - t.bal a ∧
+      t2 = { m := upd t.m a (some v), latestAll := v.all, latestAff := a } := by
+  unfold Tracker.setLatest at h
+  simp only at h
+  split at h
+  · rename_i h1
+    split at h
+    · rename_i h2
+      simp only [Except.ok.injEq] at h
+      exact ⟨h1, h2, h.symm⟩
+    · cases h
+  · cases h
+
+theorem setLatest_iff (t : Tracker) (a : Aff) (v : Status) :
+    t.setLatest a v =
+      if a.registered = v.acb.isNone then
+        if v.all = v.shares + t.latestAll - t.bal a then
+          .ok { m := upd t.m a (some v), latestAll := v.all, latestAff := a }
+        else .error (.panic .trackerAllAssert)
+      else .error (.panic .trackerAcbAssert) := rfl
+
+theorem bal_set (m : Aff → Option Status) (a : Aff) (v : Status) (l : Rat) (b x : Aff) :
+    (Tracker.bal { m := upd m a (some v), latestAll := l, latestAff := b } x) =
+      if x = a then v.shares else Tracker.bal { m := m, latestAll := l, latestAff := b } x := by
+  unfold Tracker.bal upd; by_cases hx : x = a <;> simp [hx]
+
+theorem acbOf_set (m : Aff → Option Status) (a : Aff) (v : Status) (l : Rat) (b x : Aff) :
+    (Tracker.acbOf { m := upd m a (some v), latestAll := l, latestAff := b } x) =
+      if x = a then v.acb else Tracker.acbOf { m := m, latestAll := l, latestAff := b } x := by
+  unfold Tracker.acbOf upd; by_cases hx : x = a <;> simp [hx]
+
+theorem setLatest_scaled {f : Rat} (hf : 0 < f) {t t' : Tracker} (ht : TrackerScaled f t t') (a : Aff) (v : Status) :
+    match t.setLatest a v, t'.setLatest a (scaleStatus f v) with
+    | .ok t2, .ok t2' => TrackerScaled f t2 t2'
+    | .error e, .error e' => e = e'
+    | _, _ => False := by
+  rw [setLatest_iff, setLatest_iff]
+  have hfne : f ≠ 0 := by grind
+  have e1 : (scaleStatus f v).acb = v.acb := rfl
+  rw [e1]
+  by_cases h1 : a.registered = v.acb.isNone
+  · simp only [h1, if_true]
+    have hc : ((scaleStatus f v).all = (scaleStatus f v).shares + t'.latestAll - t'.bal a) ↔
+        (v.all = v.shares + t.latestAll - t.bal a) := by
+      rw [ht.all a, ht.bal a]; simp only [scaleStatus]
+      constructor
+      · intro h
+        have : (v.all - (v.shares + t.latestAll - t.bal a)) * f = 0 := by grind
+        rcases Rat.mul_eq_zero.mp this with h | h
+        · grind
+        · exact absurd h hfne
+      · intro h; rw [h]; grind
+    by_cases h2 : v.all = v.shares + t.latestAll - t.bal a
+    · rw [if_pos h2, if_pos (hc.mpr h2)]
+      apply TrackerScaled.of_obs
+      · intro x
+        have := ht.bal x
+        unfold Tracker.bal at this ⊢
+        unfold upd
+        by_cases hx : x = a
+        · simp [hx, scaleStatus]
+        · simpa [hx] using this
+      · rfl
+      · intro x
+        have := ht.acbOf x
+        unfold Tracker.acbOf at this ⊢
+        unfold upd
+        by_cases hx : x = a
+        · simp [hx, scaleStatus]
+        · simpa [hx] using this
+      · simp [Tracker.latestPostAll, upd, scaleStatus]
+    · have : ¬ ((scaleStatus f v).all = (scaleStatus f v).shares + t'.latestAll - t'.bal a) := fun h => h2 (hc.mp h)
+      rw [if_neg h2, if_neg this]
+  · simp only [h1, if_false]
+
+end Acb
+
+namespace Acb
+
+/-! ### the other arms -/
+
+/-- the row of the run with the split that corresponds to row `x`: the restated input row, or the
+    very same generated SfLA row -/
+def RowRel (f : Rat) (x x' : Tx) : Prop := x' = restateTx f x ∨ (IsSflaRow x ∧ x' = x)
+
+theorem RowRel.aff {f : Rat} {x x' : Tx} (h : RowRel f x x') : x'.aff = x.aff := by
+  rcases h with rfl | ⟨_, rfl⟩ <;> rfl
+
+theorem sanityCheck_scaled {f : Rat} (hf : 0 < f) (pre : Status) (a : Aff) :
+    sanityCheck (scaleStatus f pre) a = sanityCheck pre a := by
+  unfold sanityCheck
+  have : ((scaleStatus f pre).all < (scaleStatus f pre).shares) ↔ (pre.all < pre.shares) := by
+    simp only [scaleStatus]
+    constructor
+    · intro h
+      have : (pre.all - pre.shares) * f < 0 := by grind
+      have := (lt_zero_scale hf).mp this; grind
+    · intro h
+      have : (pre.all - pre.shares) * f < 0 := (lt_zero_scale hf).mpr (by grind)
+      grind
+  have e : (scaleStatus f pre).acb = pre.acb := rfl
+  rw [e]
+  by_cases h : pre.all < pre.shares
+  · simp [h, this.mpr h]
+  · have : ¬ (scaleStatus f pre).all < (scaleStatus f pre).shares := fun h' => h (this.mp h')
+    simp [h, this]
+
+theorem armBuy_scaled {f : Rat} (hf : 0 < f) (pre : Status) (sh px comm rate : Rat) (crate : Option Rat) :
+    ArmScaled f (armBuy pre sh px comm rate crate) (armBuy (scaleStatus f pre) (sh * f) (px / f) comm rate crate) := by
+  have hfne : f ≠ 0 := by grind
+  have e : px / f * (sh * f) * rate = px * sh * rate := by grind
+  refine ⟨?_, rfl, by simp [armBuy, sflOptScaled], rfl⟩
+  unfold armBuy scaleStatus
+  simp only [e]
+  congr 1 <;> grind
+
+theorem armRoc_scaled {f : Rat} (hf : 0 < f) (reg : Bool) (pre : Status) (ps rate : Rat) :
+    ArmResScaled f (armRoc reg pre ps rate) (armRoc reg (scaleStatus f pre) (ps / f) rate) := by
+  have hfne : f ≠ 0 := by grind
+  unfold armRoc
+  have e : (scaleStatus f pre).acb = pre.acb := rfl
+  have e2 : ps / f * (scaleStatus f pre).shares * rate = ps * pre.shares * rate := by
+    simp only [scaleStatus]; grind
+  rw [e, e2]
+  cases pre.acb with
+  | none => cases reg <;> simp [ArmResScaled]
+  | some old =>
+    cases reg
+    · simp only [Bool.false_eq_true, if_false]
+      by_cases h : old - ps * pre.shares * rate < 0
+      · simp [h, ArmResScaled]
+      · simp only [h, if_false, ArmResScaled]
+        exact ⟨by simp [scaleStatus], rfl, by simp [sflOptScaled], rfl⟩
+    · simp [ArmResScaled]
+
+/-- an SfLA row, restated (`sh·f` shares at `ps/f`) or identical: the amount is the same -/
+theorem armSfla_scaled {f : Rat} (hf : 0 < f) (reg : Bool) (pre : Status) (sh ps sh' ps' : Rat)
+    (hamt : sh' * ps' = sh * ps) :
+    ArmResScaled f (armSfla reg pre sh ps) (armSfla reg (scaleStatus f pre) sh' ps') := by
+  unfold armSfla
+  have e : (scaleStatus f pre).acb = pre.acb := rfl
+  rw [e, hamt]
+  cases pre.acb with
+  | none => cases reg <;> simp [ArmResScaled]
+  | some old =>
+    cases reg
+    · simp only [Bool.false_eq_true, if_false, ArmResScaled]
+      exact ⟨by simp [scaleStatus], rfl, by simp [sflOptScaled], rfl⟩
+    · simp [ArmResScaled]
+
+theorem armSplit_scaled {f : Rat} (hf : 0 < f) (pre : Status) (post pre' : Rat) :
+    ArmResScaled f (armSplit pre post pre' false) (armSplit (scaleStatus f pre) post pre' false) := by
+  unfold armSplit
+  simp only [Bool.false_eq_true, false_and, and_false, if_false]
+  have e : (scaleStatus f pre).all + ((scaleStatus f pre).shares * splitFactor post pre' - (scaleStatus f pre).shares) =
+      (pre.all + (pre.shares * splitFactor post pre' - pre.shares)) * f := by simp only [scaleStatus]; grind
+  rw [e]
+  by_cases h : pre.all + (pre.shares * splitFactor post pre' - pre.shares) < 0
+  · simp [h, (lt_zero_scale hf).mpr h, ArmResScaled]
+  · have : ¬ (pre.all + (pre.shares * splitFactor post pre' - pre.shares)) * f < 0 := fun h' => h ((lt_zero_scale hf).mp h')
+    simp only [h, this, if_false, ArmResScaled]
+    exact ⟨by simp only [scaleStatus, e]; congr 1; grind, rfl, by simp [sflOptScaled], rfl⟩
+
+end Acb
+
+namespace Acb
+
+/-! ### one loop iteration -/
+
+structure DeltaScaled (f : Rat) (d d' : Delta) : Prop where
+  tx : RowRel f d.tx d'.tx
+  pre : d'.pre = scaleStatus f d.pre
+  post : d'.post = scaleStatus f d.post
+  gain : d'.gain = d.gain
+  sfl : sflOptScaled f d.sfl d'.sfl
+
+def StepResScaled (f : Rat) :
+    Except Failure (Delta × Tracker × List Tx) → Except Failure (Delta × Tracker × List Tx) → Prop
+  | .error e, .error e' => e = e'
+  | .ok (d, t2, inj), .ok (d', t2', inj') => DeltaScaled f d d' ∧ TrackerScaled f t2 t2' ∧ inj' = inj
+  | _, _ => False
+
+theorem arm_scaled {f : Rat} (hf : 0 < f) {t t' : Tracker} (ht : TrackerScaled f t t')
+    (x : Tx) (hio : NoIntOnly x) (pre : Status)
+    (day : Int) (idx : Nat) (post pre' : Rat)
+    (hfac : f = splitFactor post pre') (As : List Aff) (hn : As.Nodup)
+    (p0 : List Tx) (hp0 : ∀ y ∈ p0, y.aff ∈ As ∧ y.settle ≤ day)
+    (p1 p1' : List Tx) (hrel : RowsRel f p1 p1') (hp1 : ∀ y ∈ p1, y.aff ∈ As) (future : List Tx) :
+    ArmResScaled f (arm t x pre (p1 ++ p0) future)
+      (arm t' (restateTx f x) (scaleStatus f pre) (p1' ++ splitRows day idx post pre' As ++ p0)
+        (future.map (restateTx f))) := by
+  unfold arm
+  cases hx : x.act with
+  | buy sh px comm rate crate =>
+    simp only [restateTx, restateAct, hx, ArmResScaled]
+    exact armBuy_scaled hf pre sh px comm rate crate
+  | sell sh px comm rate crate spec =>
+    simp only [restateTx, restateAct, hx]
+    have := armSell_scaled hf ht x pre sh px comm rate crate spec day idx post pre' hfac As hn p0 hp0 p1 p1' hrel hp1 future
+    simpa [restateTx, restateAct, hx] using this
+  | roc ps rate =>
+    simp only [restateTx, restateAct, hx]
+    exact armRoc_scaled hf x.aff.registered pre ps rate
+  | sfla sh ps =>
+    simp only [restateTx, restateAct, hx]
+    exact armSfla_scaled hf x.aff.registered pre sh ps (sh * f) (ps / f) (by grind)
+  | split po pr io =>
+    simp only [restateTx, restateAct, hx]
+    have := hio po pr io hx
+    subst this
+    exact armSplit_scaled hf pre po pr
+
+theorem arm_sfla_scaled {f : Rat} (hf : 0 < f) {t t' : Tracker} (x : Tx) (hs : IsSflaRow x) (pre : Status)
+    (pa fa pb fb : List Tx) :
+    ArmResScaled f (arm t x pre pa fa) (arm t' x (scaleStatus f pre) pb fb) := by
+  obtain ⟨sh, ps, hx⟩ := hs
+  unfold arm
+  simp only [hx]
+  exact armSfla_scaled hf x.aff.registered pre sh ps sh ps rfl
+
+/-- shared tail of the two step lemmas -/
+theorem stepRow_of_arm {f : Rat} (hf : 0 < f) {t t' : Tracker} (ht : TrackerScaled f t t')
+    (x x' : Tx) (hr : RowRel f x x') (pa fa pb fb : List Tx)
+    (harm : ArmResScaled f (arm t x (t.nextPre x.aff) pa fa) (arm t' x' (scaleStatus f (t.nextPre x.aff)) pb fb)) :
+    StepResScaled f (stepRow t x pa fa) (stepRow t' x' pb fb) := by
+  simp only [stepRow, deltaForTx, hr.aff, ht.pre x.aff, sanityCheck_scaled hf]
+  cases hsc : sanityCheck (t.nextPre x.aff) x.aff with
+  | error e => simp [StepResScaled]
+  | ok u =>
+    simp only
+    generalize arm t x (t.nextPre x.aff) pa fa = A at harm ⊢
+    generalize arm t' x' (scaleStatus f (t.nextPre x.aff)) pb fb = B at harm ⊢
+    cases A with
+    | error e =>
+      cases B with
+      | error e' => simp only [ArmResScaled] at harm; simp [StepResScaled, harm]
+      | ok o' => simp [ArmResScaled] at harm
+    | ok o =>
+      cases B with
+      | error e' => simp [ArmResScaled] at harm
+      | ok o' =>
+        simp only [ArmResScaled] at harm
+        simp only
+        have hs := setLatest_scaled hf ht x.aff o.post
+        rw [harm.post]
+        generalize t.setLatest x.aff o.post = S at hs ⊢
+        generalize t'.setLatest x.aff (scaleStatus f o.post) = S' at hs ⊢
+        cases S with
+        | error e =>
+          cases S' with
+          | error e' => simp only at hs; simp [StepResScaled, hs]
+          | ok _ => simp at hs
+        | ok t2 =>
+          cases S' with
+          | error e' => simp at hs
+          | ok t2' =>
+            simp only at hs
+            simp only [StepResScaled]
+            exact ⟨⟨hr, rfl, rfl, harm.gain, harm.sfl⟩, hs, harm.inj⟩
+
+end Acb
